@@ -1359,8 +1359,20 @@ func (e *Enc) binop(x *ssa.BinOp) {
 			e.unsupp("float op %s", x.Op)
 			return
 		}
-		e.define(x, app("fp_"+map[string]string{"+": "add", "-": "sub", "*": "mul", "/": "div"}[op], a.T, b.T))
-		e.needFP = true
+		// IEEE-754 binary64, standard model: fl(a op b) = (a op b)(1 + d), |d| <= 2^-53 (no overflow/underflow,
+		// assumed and listed in the trusted base)
+		e.trustedUsed["IEEE-754 standard model for float64 arithmetic: |fl(x op y) - (x op y)| <= |x op y| * 2^-53; values stay in the normal range"] = true
+		if op == "/" {
+			e.oblige("div0", "float:"+descOf(e.exprText(x, x)), "", x.Pos(), e.guardGoal(app("distinct", b.T, "0.0")))
+		}
+		// additive form keeps the constraint linear whenever the exact result is linear in the unknowns
+		exact := e.fresh("fpx", "Real")
+		e.assert(app("=", exact, app(op, a.T, b.T)))
+		r := e.fresh("fpr", "Real")
+		absx := app("ite", app(">=", exact, "0.0"), exact, app("-", exact))
+		bound := app("*", absx, "(/ 1.0 9007199254740992.0)")
+		e.assert(and(app("<=", app("-", r, exact), bound), app("<=", app("-", exact, r), bound)))
+		e.define(x, r)
 		return
 	}
 	if a.S == "Bool" {
@@ -1493,12 +1505,21 @@ func (e *Enc) convert(x *ssa.Convert) {
 	case fs == "Int" && ts == "Int":
 		e.define(x, wrapTo(v.T, to))
 	case fs == "Int" && ts == "Real":
-		e.define(x, app("to_real", v.T))
+		// exact for |v| < 2^53, otherwise rounded to nearest
+		d := e.fresh("fpd", "Real")
+		e.assert(and(app("<=", "(- (/ 1.0 9007199254740992.0))", d), app("<=", d, "(/ 1.0 9007199254740992.0)")))
+		e.define(x, app("ite", and(app("<", v.T, "9007199254740992"), app(">", v.T, "(- 9007199254740992)")), app("to_real", v.T), app("*", app("to_real", v.T), app("+", "1.0", d))))
 	case fs == "Real" && ts == "Int":
 		// float -> int truncation toward zero (values out of range are implementation-defined: havoc in range)
-		e.needFP = true
-		r := e.define(x, app("fp_trunc", v.T))
-		_ = r
+		// truncation toward zero; out-of-range results are implementation-defined in Go: an obligation
+		// truncation toward zero when the value fits; otherwise the result is implementation-defined (no panic): any value
+		tr := e.fresh("trunc", "Int")
+		trr := app("to_real", tr)
+		e.assert(implies(app(">=", v.T, "0.0"), and(app("<=", trr, v.T), app(">", app("+", trr, "1.0"), v.T))))
+		e.assert(implies(app("<", v.T, "0.0"), and(app(">=", trr, v.T), app("<", app("-", trr, "1.0"), v.T))))
+		anyv := e.fresh("fconv", "Int")
+		e.assert(inRange(anyv, to))
+		e.define(x, app("ite", inRange(tr, to), tr, anyv))
 	case fs == "Real" && ts == "Real":
 		e.define(x, v.T)
 	case fs == "Slice" && ts == "Str":
@@ -1653,6 +1674,10 @@ func (e *Enc) ret(x *ssa.Return) {
 		retTerms = append(retTerms, e.val(rv).T)
 	}
 	for _, en := range e.ct.Ensures {
+		if e.ct.Trusted != "" && !strings.HasPrefix(en.Tag, "C") {
+			// an assumed (trusted) contract: its untagged clauses are part of the trusted base, not obligations
+			continue
+		}
 		if t, ok := e.evalClause(e.ct, en.Expr, env); ok {
 			e.oblige("post", en.Tag, en.Tag, x.Pos(), e.guardGoal(t))
 			e.obls[len(e.obls)-1].RetTerms = retTerms
